@@ -1247,6 +1247,13 @@ class PyExec:
         return out
 
     def subscript(self, base, idx, st):
+        if isinstance(base, Const) and isinstance(base.v, dict):
+            key = idx.v if isinstance(idx, Const) else self.concrete(idx)
+            if key is None and not (isinstance(idx, Const) and idx.v is None):
+                raise Unsupported("symbolic key into a constant dict")
+            if key in base.v:
+                return [("val", Const(base.v[key]), st)]
+            return [("raise", Const(KeyError), st)]
         if isinstance(base, Opaque) and base.what == "most_common" and isinstance(idx, tuple) and idx and idx[0] == "slice":
             return [("val", Opaque("slice-of-most_common"), st)]  # a list derived from an earlier answer
         if isinstance(base, Opaque) and base.what == "tuple-of-unknown-length":
@@ -1710,6 +1717,13 @@ class PyExec:
         if name == "py.append":
             selfv.append(args[0])
             return [("val", Const(None), st)]
+        if name == "py.pop" and isinstance(selfv, dict) and args:
+            key = args[0].v if isinstance(args[0], Const) else self.concrete(args[0])
+            if key in selfv:
+                return [("val", selfv.pop(key), st)]
+            if len(args) > 1:
+                return [("val", args[1], st)]
+            return [("raise", Const(KeyError), st)]
         if name == "py.get":
             key = args[0].v if isinstance(args[0], Const) else self.concrete(args[0])
             return [("val", selfv.get(key, args[1] if len(args) > 1 else Const(None)), st)]
